@@ -58,6 +58,9 @@ package semantic
 //@ func (s *Statement) OutputBindings
 //@   trusted reads the statement and returns a list of binding names; modifies nothing
 //@   pure
+//@ func (c *GraphClause) Bindings
+//@   trusted reads the clause and returns the list of its binding names; modifies nothing
+//@   pure
 
 // orderByBindingsChecker: the ORDER BY keys must be output bindings and must not contradict each other.
 // The key list a query asked for is to be kept: in particular the first key stays the first key.
@@ -228,3 +231,15 @@ package semantic
 //@   requires s != nil
 //@   modifies s.havingExpressionEvaluator
 //@   ensures[evaluator-or-error] result1 == nil ==> s.havingExpressionEvaluator != nil
+
+// ---- Statement.Init resolves the graph names through the store (C20, C04) ---------------------
+//@ props C20 C04 C08
+//@ func (s *Statement) Init
+//@   opt terminates
+//@   requires s != nil && st != nil
+//@   modifies s.graphs, s.inputGraphs, s.outputGraphs, $driverFailed, $graphLookups
+//@   ensures[driver-error-surfaces@C20] $driverFailed && !old($driverFailed) ==> result != nil
+//@   ensures[every-name-resolved] result == nil ==> len(s.graphs) == old(len(s.graphs)) + len(s.graphNames) && len(s.inputGraphs) == old(len(s.inputGraphs)) + len(s.inputGraphNames) && len(s.outputGraphs) == old(len(s.outputGraphs)) + len(s.outputGraphNames)
+//@   loop 0 invariant 0 <= $i && $i <= len(s.graphNames) && len(s.graphs) == old(len(s.graphs)) + $i && s.inputGraphs == old(s.inputGraphs) && s.outputGraphs == old(s.outputGraphs) && $driverFailed == old($driverFailed)
+//@   loop 1 invariant 0 <= $i && $i <= len(s.inputGraphNames) && len(s.graphs) == old(len(s.graphs)) + len(s.graphNames) && len(s.inputGraphs) == old(len(s.inputGraphs)) + $i && s.outputGraphs == old(s.outputGraphs) && $driverFailed == old($driverFailed)
+//@   loop 2 invariant 0 <= $i && $i <= len(s.outputGraphNames) && len(s.graphs) == old(len(s.graphs)) + len(s.graphNames) && len(s.inputGraphs) == old(len(s.inputGraphs)) + len(s.inputGraphNames) && len(s.outputGraphs) == old(len(s.outputGraphs)) + $i && $driverFailed == old($driverFailed)
